@@ -23,7 +23,7 @@ HEADERS = [None, "", "Bearer", "Bearer ", " Bearer {t}", "Bearer {t}", "bearer {
 # "expired-frac": the lifetime ended a quarter second ago (whole-second issued_at, fractional clock); "live-frac": it ends in a quarter second; "live-boundary": it ends now
 STATES = ["live", "expired", "revoked", "unknown", "live-noexp", "expired-frac", "live-frac", "live-boundary"]
 FRAC = {"expired-frac": 3600.25, "live-frac": 3599.75, "live-boundary": 3600}
-TOKSCOPES = [None, "", "a", "a b", "b a", "a b c d", "c", " a  b "]
+TOKSCOPES = [None, "", "a", "a b", "b a", "a b c d", "c", " a  b ", "a,b", "c,a d"]
 REQS = [None, [], "a", "a b", ["a"], ["a b"], ["a", "c"], ["a b", "c"], ["d", "c d"], ["z"], ["b a"], [""], ["", "z"], "  a  "]
 
 
@@ -167,8 +167,37 @@ def impl_remote(c):
     return {"first": {"status": first.get("status"), "error": first.get("error")}, "second": {"status": second.get("status"), "error": second.get("error")}}
 
 
+def rotation_cases():
+    """one long-lived RFC 9068 validator while the authorization server's key set changes (rotation): every request is judged by the keys published NOW"""
+    return [{"kind": "rotation", "how": how, "warm": warm, "required": req} for how in ("replace", "add", "remove-all") for warm in (True, False) for req in (None, ["a"])]
+
+
+def impl_rotation(c):
+    ms.install_clock()
+    current = {"keys": [K1]}
+
+    class RV(JWTBearerTokenValidator):
+        def get_jwks(self):
+            return KeySet(list(current["keys"]))
+    rp = ResourceProtector()
+    rp.register_token_validator(RV(issuer=ISS, resource_server=RS))
+    now = CLOCK()
+    def tok(key, kid):
+        from authlib.jose import jwt as _jwt
+        payload = {"iss": ISS, "aud": RS, "exp": now + 600, "iat": now - 5, "sub": "u1", "client_id": "c1", "jti": "j-" + kid, "scope": "a b"}
+        return _jwt.encode({"alg": "HS256", "typ": "at+jwt", "kid": kid}, payload, key).decode()
+    def ask(t):
+        o, _ = run_protector(rp, c["required"], {"Authorization": "Bearer " + t})
+        return o.get("decision", "raised:" + str(o.get("raised")))
+    t_old, t_new = tok(K1, "k1"), tok(K2, "k2")
+    out = {"before": [ask(t_old), ask(t_new)] if c["warm"] else None}
+    current["keys"] = {"replace": [K2], "add": [K1, K2], "remove-all": []}[c["how"]]
+    out["after"] = [ask(t_old), ask(t_new)]
+    return out
+
+
 def cases(rng, tier):
-    return _cases(rng, tier) + jwt7523_cases() + remote_cases()
+    return _cases(rng, tier) + jwt7523_cases() + remote_cases() + rotation_cases()
 
 
 def _cases(rng, tier):
@@ -259,6 +288,8 @@ def impl(c):
         return impl_jwt7523(c)
     if c["kind"] == "remote":
         return impl_remote(c)
+    if c["kind"] == "rotation":
+        return impl_rotation(c)
     if c["kind"] == "bearer":
         CLOCK.now = 1_000_000
         try:
@@ -433,7 +464,7 @@ def jwt_model_line(c):
 
 
 def model_line(c):
-    if c["kind"] in ("jwt7523", "remote"):
+    if c["kind"] in ("jwt7523", "remote", "rotation"):
         return None
     if c["kind"] != "bearer":
         ms.install_clock()
@@ -519,6 +550,15 @@ def expected_jwt(c):
 
 
 def oracle(c, out):
+    if c["kind"] == "rotation":
+        want_after = {"replace": ["invalid_token", "served"], "add": ["served", "served"], "remove-all": ["invalid_token", "invalid_token"]}[c["how"]]
+        v = []
+        if out["before"] is not None and out["before"] != ["served", "invalid_token"]:
+            v.append((f"RFC 9068 validator with key set [k1]: tokens signed by k1 / k2 answered {out['before']}", {"kind": "wrong-decision", "token": "rotation", "want": "before"}))
+        if out["after"] != want_after:
+            v.append((f"one long-lived RFC 9068 validator{' that had already validated a token' if c['warm'] else ''}: after the key set changed ({c['how']}) the tokens signed by the old / the new key "
+                      f"are answered {out['after']}, the keys published now require {want_after}", {"kind": "wrong-decision", "token": "rotation", "want": c["how"]}))
+        return v
     if c["kind"] == "remote":
         req = c["required"]
         ok_scope = not req or any(set(alt.split()) <= {"a", "b"} for alt in req)
@@ -549,6 +589,8 @@ def oracle(c, out):
 
 
 def classify(c, out):
+    if c["kind"] == "rotation":
+        return f"rotation/{c['how']}/{'warm' if c['warm'] else 'cold'}"
     if c["kind"] == "remote":
         return f"remote/{c['then']}/{out['first']['status']}-{out['second']['status']}"
     return c["kind"] + "/" + out.get("decision", "raised")
